@@ -29,6 +29,30 @@ def gen(r, n):
     # stop, continue, then interrupt
     scs.append(dict(u=150, period=20, ta=None, grace=2, leak=0.7, dur=9, on_term="ignore",
                     sigs=[(1.5, "TSTP"), (4.5, "CONT"), (5.5, "INT")]))
+    # a shutdown signal sent WHILE nextest is stopped: it stays pending until SIGCONT, then both are handled, in
+    # either order (where F3 lived): the signal reaches the test at the continue, the grace period starts there
+    scs.append(dict(u=150, period=20, ta=None, grace=2, leak=0.7, dur=12, on_term="ignore",
+                    sigs=[(1.5, "TSTP"), (2.5, "INT"), (3.5, "CONT")]))
+    scs.append(dict(u=150, period=20, ta=None, grace=2, leak=0.7, dur=12, on_term="exit", bystander=9,
+                    sigs=[(1.5, "TSTP"), (2.5, "TERM"), (3.5, "CONT")]))
+    # ... followed by a second stop inside the grace period that started at the continue
+    scs.append(dict(u=150, period=20, ta=None, grace=3, leak=0.7, dur=14, on_term="ignore",
+                    sigs=[(1.5, "TSTP"), (2.5, "TERM"), (3.5, "CONT"), (4.5, "TSTP"), (6.5, "CONT")]))
+    # (which of the two is handled first is up to the signal stream map: several runs, each signal)
+    for s1, gr in (("HUP", 2), ("QUIT", 3), ("INT", 3), ("TERM", 2), ("HUP", 3), ("QUIT", 2)):
+        scs.append(dict(u=150, period=20, ta=None, grace=gr, leak=0.7, dur=14, on_term="ignore",
+                        sigs=[(1.5, "TSTP"), (2.5, s1), (3.5, "CONT")] +
+                             ([(4.5, "TSTP"), (6.5, "CONT")] if gr == 3 else [])))
+    # ... while the unit is being terminated for a timeout: killed at the continue
+    scs.append(dict(u=150, period=1, ta=2, grace=4, leak=0.7, dur=12, on_term="ignore",
+                    sigs=[(2.5, "TSTP"), (3.5, "INT"), (4.5, "CONT")]))
+    # finding F17 (known): stopped inside the grace period of a *signal* termination -- the slow-timeout interval
+    # is not owned by terminate_child and runs through the stop
+    scs.append(dict(u=150, period=8, ta=None, grace=4, leak=0.7, dur=20, on_term="ignore",
+                    sigs=[(1.5, "INT"), (2.5, "TSTP"), (7.5, "CONT")]))
+    # two units running: both are stopped before nextest stops itself
+    scs.append(dict(u=150, period=20, ta=None, grace=2, leak=0.7, dur=4.5, on_term="exit", bystander=3.5,
+                    sigs=[(1.5, "TSTP"), (4.5, "CONT")]))
     while len(scs) < n:
         period = r.choice([1, 2, 20])
         ta = r.choice([None, 2, 3]) if period < 20 else None
@@ -38,8 +62,11 @@ def gen(r, n):
         dur = r.choice([3.5, 5.5, 7.5])
         on_term = r.choice(["exit", "ignore"])
         sigs = [(t1, "TSTP"), (t1 + stop_len, "CONT")]
-        if r.random() < 0.3:
+        x = r.random()
+        if x < 0.3:
             sigs.append((t1 + stop_len + 1, r.choice(["INT", "TERM"])))
+        elif x < 0.5:
+            sigs.insert(1, (t1 + 1, r.choice(["INT", "TERM", "HUP", "QUIT"])))   # while stopped
         scs.append(dict(u=150, period=period, ta=ta, grace=grace, leak=0.7, dur=dur, on_term=on_term, sigs=sigs))
     return scs
 
@@ -90,7 +117,7 @@ def run(tier, seed):
         chk.violation("broken-obligation", "e2e-build", dict(error=str(ex)[-3000:]), no_input=True)
         return chk.finish(gate, "make -C coq Properties/C12.vo", [])
     r = vlib.rng_for(seed, PROP)
-    scs = gen(r, 60 if tier == "thorough" else 18)
+    scs = gen(r, 73 if tier == "thorough" else 30)
     life_scs = []
     if U.check_family(chk, rig, scs, U.oracle_C12, "c12"):
         if U.check_family(chk, rig, info_scenarios(), oracle_info, "c12i"):
@@ -115,6 +142,9 @@ def run(tier, seed):
         "the leak-drain loop ignores stop/continue by design (known finding F12)",
         "whole-life theorems (Properties/UnitLife.v) exclude the class 'a phase begins, or the leak drain is sent a "
         "Stop, while a Stop is owed its Continue' (refuted inside it by closed examples)",
+        "nextest's own stop / continue is what its parent process sees through waitid(WSTOPPED | WCONTINUED)",
+        "signals sent while nextest is stopped are handled at the continue in either order: a run must agree "
+        "completely with one of the two predictions",
         "timing tolerance 0.45 time units; time-dependent failures must reproduce with the unit doubled"]
     return chk.finish(gate, "pause_table > gen/GenPauseTable.v; make -C coq Properties/C12.vo (re-checks "
                             "Proofs/PauseCert.v by vm_compute over the whole abstract state space) + Print Assumptions",
@@ -138,5 +168,6 @@ def replay(path, seed):
     sc = runs[0]["scenario"]
     o = U.run_scenarios(rig, [sc], par=1)[0]
     why = U.oracle_C12(sc, o)
-    print("oracle:", why or "accepts", "| compare:", U.compare(sc, U.predict([sc])[0], o))
+    print("oracle:", why or "accepts", "| compare:",
+          U.compare_any(sc, [U.predict([sc])[0], U.predict_alt([sc])[0]], o)[0])
     return 1 if why else 0
